@@ -1,4 +1,4 @@
-HOOK_COMMITS = ["bc07554", "1cc2f17", "da9c99f", "7f9585e"]
+HOOK_COMMITS = ["bc07554", "1cc2f17", "da9c99f", "7f9585e", "d7faae8"]
 
 SEQ_NOTE = ("Trusts: Lean kernel; the byte-exact correspondence run of the physical model (Sth/Model/Store.lean, GC.lean) against the "
             "real store (every output, decoded pools and bucket table after every mutation, every file after every flush/GC/close); the "
@@ -49,11 +49,15 @@ META["C01"] = dict(
 META["C02"] = dict(
     engine="lean+harness(seq)",
     design_ref="DESIGN.md section 5, C02",
-    technique="Lean 4 model of Close/Open (snapshot and rescan paths) with correspondence on bytes and bucket tables; two-path oracle on the real code",
+    technique="Lean 4 proof (refinement with Close+reopen among the calls; snapshot path = rescan path) + correspondence on bytes and bucket tables; two-path oracle on the real code",
     text="Model of Store.Close/OpenStore including saveBucketState/loadBucketState, scanIndex with tail truncation and findLast*, executable "
          "and compared byte-for-byte with the real store across close/reopen with a usable, a missing and a damaged snapshot; the real "
-         "code's live table, snapshot-path table and rescan-path table are compared directly. Proved core: record-list theorems; the "
-         "reopen theorem (C02_reopen_preserves) is stated in DESIGN.md and not yet proved.",
+         "code's live table, snapshot-path table and rescan-path table are compared directly. PROVED (Sth/Props/C02.lean, ~1850 lines of lemmas on "
+         "top of C01's): C02_store_refines_map (every legal configuration, every sequence of Put/Get/Has/GetSize/Remove/Flush/iteration/"
+         "Close+reopen with or without the snapshot returns what the map returns: every reopen succeeds and preserves the contents), "
+         "C02_snapshot_eq_rescan (both open paths load the same non-zero bucket table and the same record lists), "
+         "C02_reopen_preserves_observations, C02_reopen_twice. Partial with respect to the statement: histories containing GC cycles "
+         "before the reopen are covered by the correspondence and the oracle (c02 profile now mixes GC cycles in), not yet by the theorem.",
     note=SEQ_NOTE,
 )
 META["C04"] = dict(
@@ -72,8 +76,11 @@ META["C15"] = dict(
     technique="Lean 4 adapter model over the store model (hash function as a parameter) with correspondence + blockstore-contract oracle",
     text="Model of every HashedBlockstore method (context check, store call on c.Hash(), error mapping, hash-on-read) over the store model; "
          "compared with the real adapter on blocks of all sizes, CID versions, codecs and hash functions, aliases, cancelled contexts and "
-         "mismatching blocks, and checked against the blockstore contract. The adapter corollaries of C01 are not yet stated as theorems; "
-         "proved core: record-list theorems.",
+         "mismatching blocks, and checked against the blockstore contract. PROVED (Sth/Props/C15.lean over Sth/Model/AdapterMachine.lean): "
+         "C15_adapter_refines_contract (every sequence of adapter calls over the physical store returns what the blockstore contract, a map "
+         "from multihash digests to bytes, returns; hash function a parameter), with clause theorems put_then_get, has/size agree with get, "
+         "delete_not_found, duplicate_put_silent, unknown_cid_not_found, alias_same_block/alias_delete, hash_on_read (enabled/disabled/after "
+         "toggle), malformed_cid, cancelled_ctx (no store call, no state change).",
     note=SEQ_NOTE + " The hash function is a parameter (real Sum's verdict is trace input).",
 )
 
@@ -140,11 +147,15 @@ META["C11"] = dict(
 META["C13"] = dict(
     engine="lean+harness(seq)",
     design_ref="DESIGN.md section 5, C13",
-    technique="multiset accounting specification evaluated on the real store's index entries and freelist after every operation; model views compared",
+    technique="Lean 4 proof (freelist = concatenation of superseded locations, over all C01 histories) + accounting specification evaluated on the real store after every operation and after scheduled hand-over interleavings",
     text="After every mutating operation the locations named by live index entries and the recorded locations (freelist pool, file, .gc) "
          "of the real store are listed; superseded = newly recorded, nothing twice, nothing current, nothing vanishes without GC, a "
-         "complete cycle consumes everything recorded before it. The accounting theorem (C13_accounting) is stated in DESIGN.md and not "
-         "yet proved; proved core = record-list theorems (frame: update/remove touch exactly one entry).",
+         "complete cycle consumes everything recorded before it. PROVED (Sth/Props/C13.lean): C13_step (one call appends exactly the old "
+         "current block for an overwrite/removal of a present key, nothing for a new key, a rejected Put, a Remove of an absent key, "
+         "a read or a flush), C13_recorded_not_current / C13_current_not_recorded, C13_exactly_once (no location twice), C13_run "
+         "(recorded = concatenation of the superseded locations of the whole history), C13_file_well_formed; for every legal "
+         "configuration and C01 history. Partial: consumption by GC cycles and the concurrent hand-over (Put || Flush || ToGC) are "
+         "covered by the seq and sched runs, not by theorems.",
     note=SEQ_NOTE,
 )
 
